@@ -28,6 +28,9 @@ type bundle struct {
 	LexChan  map[uint16]string
 	Scan     []string
 	ScanLate *[]string // non-indexed read restricted to log times >= the latest one
+	// default (index-preferring) read restricted to log times < the latest one: nil = not run, error kept apart
+	IdxBefore    *[]string
+	IdxBeforeErr string
 	ScanMeta int
 	IdxFile  []string
 	IdxLog   []string
@@ -164,6 +167,18 @@ func readBundle(b []byte) *bundle {
 		}
 		k := keys(ls.Triples)
 		bu.ScanLate = &k
+		// the end bound is exclusive: a window ending exactly at the latest log time (which is some
+		// chunk's end time) leaves out the messages logged at that time
+		ib := gow.Iterate(bytes.NewReader(b), gow.NextIntoNil, false, nil, 0, mcap.BeforeNanos(late))
+		switch {
+		case ib.Panic != "":
+			bu.IdxBeforeErr = "panic: " + ib.Panic
+		case ib.Failed() != nil:
+			bu.IdxBeforeErr = ib.Failed().Error()
+		default:
+			kb := keys(ib.Triples)
+			bu.IdxBefore = &kb
+		}
 	}
 	for i, o := range []mcap.ReadOrder{mcap.FileOrder, mcap.LogTimeOrder, mcap.ReverseLogTimeOrder} {
 		ir := gow.Iterate(bytes.NewReader(b), gow.NextIntoNil, false, nil, 0, mcap.UsingIndex(true), mcap.InOrder(o))
@@ -284,6 +299,8 @@ func diffBundle(a, b *bundle) string {
 		return "non-indexed messages"
 	case !reflect.DeepEqual(a.ScanLate, b.ScanLate):
 		return "non-indexed messages in a time window"
+	case !reflect.DeepEqual(a.IdxBefore, b.IdxBefore) || a.IdxBeforeErr != b.IdxBeforeErr:
+		return "default read with an end bound"
 	case a.ScanMeta != b.ScanMeta:
 		return "metadata callback count"
 	case a.IdxErr != b.IdxErr:
@@ -542,6 +559,26 @@ func c12Oracle(l *logical, ls *layoutSpec, bu *bundle) *explore.Verdict {
 		}
 		if !reflect.DeepEqual(*bu.ScanLate, wl) {
 			return vio("C12:scan-window", "non-indexed read with AfterNanos(latest log time) returned %d messages, %d match", len(*bu.ScanLate), len(wl))
+		}
+	}
+	if bu.IdxBeforeErr != "" && ls.noRepeat == 0 {
+		return vio("C12:window-read-error", "Messages(BeforeNanos(latest log time)) failed on a legal layout: %s", bu.IdxBeforeErr)
+	}
+	if bu.IdxBefore != nil {
+		var late uint64
+		for _, m := range l.msgs {
+			if m.LogTime > late {
+				late = m.LogTime
+			}
+		}
+		var wb []string
+		for i, m := range l.msgs {
+			if m.LogTime < late {
+				wb = append(wb, wk[i])
+			}
+		}
+		if !reflect.DeepEqual(*bu.IdxBefore, wb) && !(len(*bu.IdxBefore) == 0 && len(wb) == 0) {
+			return vio("C12:window-read-content", "Messages(BeforeNanos(latest log time)) returned %d messages, %d lie before that time", len(*bu.IdxBefore), len(wb))
 		}
 	}
 	wantMeta := 0
